@@ -48,6 +48,9 @@ def square_cases(rng, n, quick):
     out.append(('exchange', [[Q(1) if i + j == n - 1 else Q() for j in range(n)] for i in range(n)]))
     out.append(('cyclic-shift-2', [[Q(0, 0, 1, 0) if (i - j) % n == 2 % n else Q() for j in range(n)] for i in range(n)]))
     out.append(('pure-imaginary', [[Q(0, a.x, a.y, a.z) for a in r] for r in A]))
+    # entries confined to a sub-algebra: real-valued (all vector parts zero, non-symmetric) and complex-valued (real + i parts only)
+    out.append(('real-valued', [[Q(a.w + (i + 1 if i == j else 0)) for j, a in enumerate(r)] for i, r in enumerate(A)]))
+    out.append(('complex-valued', [[Q(a.w, a.x, 0, 0) for a in r] for r in A]))
     if not quick:
         U = qx.rand_unitary(rng, n, 2); out.append(('unitary', U))
         v = qx.rand_int(rng, n, 1, -2, 2); out.append(('rank-one', qx.mm(v, qx.herm(v))))
